@@ -121,6 +121,25 @@ theorem tips_unsupported (r : T) (bs : List T) (s : SplitE) (hs : s ∈ r.splits
     unfold fbpOf tbeOf
     simp [h2]
 
+/-- `tips_unsupported`, on the functions the driver runs: in the list the model of FBP returns,
+    the entry of a tip branch (and of any branch whose split is trivial) is the support the
+    branch had before — FBP writes nothing there; a reference read from Newick has none on its
+    tips — and in the list of TBE it is "none". -/
+theorem tips_unsupported_model (r : T) (bs : List T) (h : hypOK r bs = true) (hid : idsInRange r = true) :
+    ∃ f t, fbp r bs = .ok f ∧ tbe r bs = .ok t ∧
+      List.zip r.splits f = r.splits.map (fun s => (s, fbpOf r bs s)) ∧
+      List.zip r.splits t = r.splits.map (fun s => (s, tbeOf r bs s)) ∧
+      ∀ s ∈ r.splits, (s.tip = true ∨ ¬ 2 ≤ depth r.tipNames s.below) →
+        fbpOf r bs s = s.e.sup ∧ tbeOf r bs s = NIL := by
+  refine ⟨_, _, fbp_eq_expected r bs h, tbe_eq_expected r bs h hid, ?_, ?_, ?_⟩
+  · unfold fbpExpected; exact zip_map_self _ _
+  · unfold tbeExpected; exact zip_map_self _ _
+  · intro s hs hc
+    obtain ⟨a, b⟩ := tips_unsupported r bs s hs
+    rcases hc with hc | hc
+    · exact b (a hc)
+    · exact b hc
+
 /-- `order_independent`: the order of the bootstrap trees does not matter. -/
 theorem order_independent (r : T) (bs bs' : List T) (hp : bs.Perm bs') (h : hypOK r bs = true)
     (hid : idsInRange r = true) : fbp r bs = fbp r bs' ∧ tbe r bs = tbe r bs' := by
@@ -352,7 +371,7 @@ theorem log_mode_distance (r b : T) (s : SplitE) (hr : treeOK r = true) (hb : tr
 /-- `gotree compute support fbp|tbe -i ref -b boots` on files without unterminated text, the
     bootstrap file holding at least one tree: the reference is the FIRST tree of its file
     (later trees and blank lines are ignored), the collection is every tree of the bootstrap
-    file in order (blank lines ignored), and the result is the library function on those. -/
+    file in order (blank lines ignored; every tree of a line holding several — `treeLine`, since 3850fd2), and the result is the library function on those. -/
 theorem cli_reads_files (f : T → List T → Out (List Rat)) (refFile bootFile : List (Item T))
     (hr : noJunk refFile = true) (hb : noJunk bootFile = true) (hne : treesOf bootFile ≠ []) :
     cliRun f refFile bootFile =
@@ -386,6 +405,11 @@ theorem cli_no_bootstrap_tree_err (f : T → List T → Out (List Rat)) (refFile
       intro h1 h2
       cases x with
       | tree a => simp [treesOf] at h1
+      | treePlus a => simp [treesOf] at h1
+      | treeLine as =>
+        cases as with
+        | nil => simp only [cliStreamGo]; exact ih (by simpa [treesOf] using h1) (by simpa [noJunk] using h2)
+        | cons a as' => simp [treesOf] at h1
       | blank => simp only [cliStreamGo]; exact ih (by simpa [treesOf] using h1) (by simpa [noJunk] using h2)
       | junk => simp [noJunk] at h2
   unfold cliRun cliStream
@@ -497,6 +521,38 @@ theorem cli_rejects_other_taxa (refFile bootFile : List (Item T)) (r : T)
   obtain ⟨e1, e2⟩ := different_taxa_err r (treesOf bootFile) hrOK hall hid hbad
   rw [cli_reads_files fbp refFile bootFile hr hb hne, cli_reads_files tbe refFile bootFile hr hb hne, href]
   exact ⟨e1, e2⟩
+
+/-! ## the thread count -/
+
+/-- With at least one thread the configured functions are the functions of the theorems above
+    (that every schedule of the workers gives the one-worker result is C11's theorem; the code is
+    run with 0, -1, 1, 2, 4 and 16 threads on every run). -/
+theorem threads_positive (cpus : Int) (h : 1 ≤ cpus) (r : T) (bs : List T) :
+    fbpCfg cpus r bs = fbp r bs ∧ tbeCfg cpus r bs = tbe r bs := by
+  unfold fbpCfg tbeCfg atLeastOne
+  have : ¬ cpus < 1 := by omega
+  simp [this, h]
+
+/-- Since 4aac0a9 a count below 1 means one thread: the configuration never matters. -/
+theorem threads_any (cpus : Int) (r : T) (bs : List T) :
+    fbpCfg cpus r bs = fbp r bs ∧ tbeCfg cpus r bs = tbe r bs := by
+  unfold fbpCfg tbeCfg atLeastOne
+  by_cases h : cpus < 1
+  · simp [h]
+  · have : 1 ≤ cpus := by omega
+    simp [h, this]
+
+/-- Finding C10NonPositiveThreads, repaired by 4aac0a9 — the old behaviour (`fbpCfgPinned` /
+    `tbeCfgPinned`: a count ≤ 0 rejected nowhere): FBP answered `NaN` on every supported branch
+    and did not even look at a tree on other taxa; TBE with 0 threads returned the reference without
+    any support although the definition gives 1; with a negative count it panicked. -/
+theorem threads_nonpositive_fails :
+    (fbpCfgPinned 0 wRef [wBoot]).isNan = true ∧ (fbpCfgPinned 0 wRef [wBad]).isErr = false ∧
+    supAt (tbeCfgPinned 0 wRef [wBoot]) 2 = some NIL ∧ supAt (tbe wRef [wBoot]) 2 = some 1 ∧
+    (tbeCfgPinned (-1) wRef [wBoot]).isPanic = true ∧
+    (fbpCfg 0 wRef [wBad]).isErr = true := by
+  refine ⟨by decide, by decide, by decide, ?_, by decide, by decide⟩
+  decide +kernel
 
 /-! ## the repaired defects: the old behaviour, on concrete witnesses -/
 
